@@ -46,10 +46,12 @@ Theorem C12_json_name_invariant : forall w, to_json_name (field_attr w) = to_jso
 Proof. exact json_name_invariant. Qed.
 Print Assumptions C12_json_name_invariant.
 
-(* proto file names: the disambiguation loop terminates (no fuel exhaustion) and returns a module name that is
-   neither taken nor a keyword / client control parameter *)
+(* proto file names: the disambiguation loop terminates (no fuel exhaustion) and returns a name that is not taken, and
+   neither that name nor its snake-case form (the module the types are written to: Import.proto -> import_) is a keyword
+   or a name the client classes use (metadata, retry, timeout, request, transport) *)
 Theorem C12_fname_terminates_fresh : forall name visited,
-  exists r, sanitize_fname name visited = Some r /\ mem_str r visited = false /\ invalid_module r = false.
+  exists r, sanitize_fname name visited = Some r /\ mem_str r visited = false /\
+            invalid_module r = false /\ invalid_module (snake r) = false.
 Proof. exact sanitize_total. Qed.
 Print Assumptions C12_fname_terminates_fresh.
 
